@@ -160,7 +160,8 @@ TStep == /\ l <= Len(Tr.events)
                                   /\ (InverseOf(pre) /\ obs = nom) =>
                                         (InverseOf(obs) /\ AbsOf(obs) = RefNext(e, AbsOf(pre)))
                \* keep: the derived object was observed; the object it was taken from stays current, unchanged
-               /\ e.keep => (e.op \in KeepOps /\ [db |-> ObsFn(e.cdb), rdb |-> ObsFn(e.crdb)] = pre)
+               /\ e.keep => /\ e.op \in KeepOps /\ [db |-> ObsFn(e.cdb), rdb |-> ObsFn(e.crdb)] = pre
+                            /\ (Unspecified(e, pre) \/ QueriesOK(e, obs))      \* the query methods of the derived object
                /\ LET cur2 == IF e.keep THEN pre ELSE obs IN SetImpl(cur2) /\ SetAbs(AbsOf(cur2))
                \* the source of a copy is independent of the copy: nothing done later changes it
                /\ src' = IF e.op \in CopyOps /\ e.exc = "" /\ ~e.keep
